@@ -81,10 +81,22 @@ def cases(body, valmap, call_oracle=None, start=0, limit=20000, max_visits=3):
                 for k_ in [k_ for k_ in known if isinstance(k_, tuple) and k_[0] == l]:
                     del known[k_]
                 v = None
+                known.pop(("v", l), None)
                 if rv["k"] == "use":
                     v = val(rv["op"])
                     if v is None:
                         v = sval(rv["op"])
+                    src_ = rv["op"].get("copy") or rv["op"].get("move")
+                    if src_ is not None and not src_["p"] and ("v", src_["l"]) in known:
+                        known[("v", l)] = known[("v", src_["l"])]
+                elif rv["k"] == "agg" and rv.get("agg") == "adt" and rv.get("variant"):
+                    # an enum value built on this path carries its variant (`Ok(..)` returned by an inlined helper, then `?`)
+                    known[("v", l)] = rv["variant"].split("::")[-1]
+                elif rv["k"] == "discr" and not rv["place"]["p"] and ("v", rv["place"]["l"]) in known:
+                    name_ = known[("v", rv["place"]["l"])]
+                    for idx_, vn_ in rv.get("variants", []):
+                        if vn_ == name_:
+                            v = int(idx_)
                 elif rv["k"] == "ref" and rv["place"]["p"] == ["*"] and isinstance(known.get(rv["place"]["l"]), tuple) and known[rv["place"]["l"]][0] == "str":
                     v = known[rv["place"]["l"]]  # reborrow of a &'static str constant
                 elif rv["k"] == "agg" and rv.get("agg") == "tuple":
@@ -131,6 +143,18 @@ def cases(body, valmap, call_oracle=None, start=0, limit=20000, max_visits=3):
                 break
             if t["k"] == "call" and not t["dest"]["p"]:
                 known.pop(t["dest"]["l"], None)
+                known.pop(("v", t["dest"]["l"]), None)
+                from .facts import mname as _mn
+                mm_ = _mn(t)
+                if mm_ == "Try::branch" and t["args"]:
+                    a0_ = t["args"][0].get("move") or t["args"][0].get("copy")
+                    if a0_ is not None and not a0_["p"] and ("v", a0_["l"]) in known:
+                        cv_ = {"Ok": "Continue", "Some": "Continue", "Err": "Break", "None": "Break"}.get(known[("v", a0_["l"])])
+                        if cv_:
+                            known[("v", t["dest"]["l"])] = cv_
+                elif mm_ == "FromResidual::from_residual":
+                    dty_ = body.lty(t["dest"]["l"])
+                    known[("v", t["dest"]["l"])] = "Err" if "Result<" in dty_ else "None"
                 if call_oracle is not None:
                     r = call_oracle(t, val)
                     if r is not None:
